@@ -273,6 +273,11 @@ func (vc *FuncVC) loopWrites(l *loopInfo) (map[string]bool, bool) {
 		for _, ins := range b.Instrs {
 			switch x := ins.(type) {
 			case *ssa.Store:
+				if a := vc.localAllocOf(x.Addr); a != nil && l.body[a.Block()] {
+					// a cell of an object allocated in this very iteration: nothing that existed when the
+					// iteration started is written (see DESIGN 2.4.1, loop havoc)
+					continue
+				}
 				addSort(vc.tc.SortOf(derefType(x.Addr.Type())))
 			case *ssa.MapUpdate:
 				mt := under(x.Map.Type()).(*types.Map)
@@ -280,7 +285,6 @@ func (vc *FuncVC) loopWrites(l *loopInfo) (map[string]bool, bool) {
 				w[dk], w[vk] = true, true
 			case *ssa.Alloc:
 				w["alloc"] = true
-				addSort(vc.tc.SortOf(derefType(x.Type())))
 			case *ssa.MakeSlice:
 				w["alloc"] = true
 				addSort(vc.tc.SortOf(under(x.Type()).(*types.Slice).Elem()))
@@ -676,6 +680,13 @@ func (vc *FuncVC) invEnv(l *loopInfo, st *State, defs map[string][]defPoint, phi
 	env.lookup = vc.resolver(defs, l.head, nPhis(l.head), st, phiOv, nil)
 	if l.rng != nil {
 		env.visKey = visKeyOf(l.rng)
+	}
+	if rv := rangedSlice(l); rv != nil {
+		if t, ok := vc.vals[rv]; ok {
+			env.ranged = &SVal{t, rv.Type()}
+		} else if _, isParam := rv.(*ssa.Parameter); isParam {
+			env.ranged = &SVal{vc.val(rv), rv.Type()}
+		}
 	}
 	if l.pre != nil && len(l.entries) == 1 {
 		ov := map[ssa.Value]Term{}
@@ -1109,6 +1120,7 @@ func (vc *FuncVC) instr(b *ssa.BasicBlock, idx int, ins ssa.Instruction, st *Sta
 	case *ssa.MakeSlice:
 		a := vc.allocObject(st, "arr_"+x.Name(), reach)
 		vc.emit("(assert (not (iscell %s)))", a.S)
+		vc.emit("(assert (= (atype %s) %d))", a.S, vc.tc.TypeID(under(x.Type()).(*types.Slice).Elem()))
 		ln := vc.val(x.Len)
 		cp := vc.val(x.Cap)
 		vc.safetyOb("makeslice", "make([]T, len, cap) with 0 <= len <= cap", x.Pos(), reach, And(App(SBool, "<=", IntLit(0), ln), App(SBool, "<=", ln, cp)))
@@ -1861,4 +1873,30 @@ func (vc *FuncVC) deadReturnOK(r *ssa.Return) bool {
 		}
 	}
 	return false
+}
+
+// rangedSlice returns the slice a `for range` loop iterates over (from the len() its head compares with).
+func rangedSlice(l *loopInfo) ssa.Value {
+	b := l.head
+	if len(b.Instrs) == 0 {
+		return nil
+	}
+	iff, ok := b.Instrs[len(b.Instrs)-1].(*ssa.If)
+	if !ok {
+		return nil
+	}
+	cmp, ok := iff.Cond.(*ssa.BinOp)
+	if !ok || cmp.Op != token.LSS {
+		return nil
+	}
+	call, ok := cmp.Y.(*ssa.Call)
+	if !ok {
+		return nil
+	}
+	if bi, ok := call.Call.Value.(*ssa.Builtin); ok && bi.Name() == "len" && len(call.Call.Args) == 1 {
+		if _, isSlice := under(call.Call.Args[0].Type()).(*types.Slice); isSlice {
+			return call.Call.Args[0]
+		}
+	}
+	return nil
 }
